@@ -109,7 +109,8 @@ Definition sha1m_update (c : sha1ctx) (data : bytes) : sha1ctx :=
 Definition sha1m_final (c : sha1ctx) : list N :=
   let n := length (ctx_M c) in
   if (n <? 56)%nat then
-    C (ctx_H c) (ctx_M c ++ [0x80] ++ repeat 0 (59 - n)%nat ++ be_bytes 4 (ctx_nbits c))
+    C (ctx_H c)
+      (ctx_M c ++ [0x80] ++ repeat 0 (59 - n)%nat ++ be_bytes 4 (ctx_nbits c))
   else
     let h1 := C (ctx_H c) (ctx_M c ++ [0x80] ++ repeat 0 (63 - n)%nat) in
     C h1 (repeat 0 60%nat ++ be_bytes 4 (ctx_nbits c)).
@@ -124,3 +125,46 @@ Definition sha1m_digest (chunks : list bytes) : bytes :=
   sha1_words_to_bytes (sha1m_final (fold_left sha1m_update chunks sha1m_init)).
 
 End Sha1Model.
+
+(* ------------------------------------------------------------------ *)
+(* Word-level view of the first word array of srtp_sha1_final          *)
+(* ------------------------------------------------------------------ *)
+
+(* [sha1m_final] above describes W[0..15] as 64 octets.  The C code builds
+   it as 16 words, with a switch on octets_in_buffer % 4 that masks the stale
+   octets of the last buffered word.  The literal transcription below (array
+   writes into a 16-word array that starts out as [junk]) is used only in
+   Sha1Proofs.v, where it is checked by computation, for every
+   octets_in_buffer 0..63 and a buffer whose stale octets are all non-zero,
+   that its octets are exactly the block passed to [C] in [sha1m_final]
+   (Examples [sha1m_final_W_lt56], [sha1m_final_W_ge56]).
+   [buf] is the whole 64-octet buffer ctx->M, [n] is octets_in_buffer. *)
+Definition upd (i : nat) (v : N) (l : list N) : list N :=
+  firstn i l ++ v :: skipn (S i) l.
+
+Definition sha1m_final_W (junk : N) (buf : bytes) (n : nat) (nb : N)
+  : list N :=
+  let Mw := be_words buf in
+  let i := ((n + 3) / 4)%nat in
+  (* for (i = 0; i < (octets_in_buffer + 3) / 4; i++) W[i] = be32(M[i]) *)
+  let W := fold_left (fun W j => upd j (nth j Mw 0) W) (seq 0 i)
+                     (repeat junk 16) in
+  (* switch (tail) *)
+  let last_word := nth (i - 1) Mw 0 in
+  let W :=
+    match (n mod 4)%nat with
+    | 3%nat => upd i 0 (upd (i - 1)
+                 (N.lor (N.land last_word 0xffffff00) 0x80) W)
+    | 2%nat => upd i 0 (upd (i - 1)
+                 (N.lor (N.land last_word 0xffff0000) 0x8000) W)
+    | 1%nat => upd i 0 (upd (i - 1)
+                 (N.lor (N.land last_word 0xff000000) 0x800000) W)
+    | _ => upd i 0x80000000 W
+    end in
+  (* for (i++; i < 15; i++) W[i] = 0 *)
+  let W := fold_left (fun W j => upd j 0 W) (seq (S i) (15 - S i)) W in
+  (* W[15] *)
+  let W := if (n <? 56)%nat then upd 15 nb W
+           else if (n <? 60)%nat then upd 15 0 W
+           else W in
+  firstn 16 W.   (* W[16] = 0 (61..63 octets) is overwritten by the schedule *)
